@@ -625,13 +625,18 @@ structure Frame where
   proto : Option (Nat × Nat) := none
   deriving Repr, BEq, Inhabited
 
-structure St where
-  pc : Nat := 0
+/-- machine state without control (pc, call stack) -/
+structure MS where
   stack : List Val := []          -- head = top
-  calls : List Frame := []        -- head = innermost
   intc : List Nat := []
   bytec : List Bytes := []
   world : World := {}
+  deriving Repr, Inhabited
+
+structure St where
+  pc : Nat := 0
+  calls : List Frame := []        -- head = innermost
+  ms : MS := {}
   deriving Repr, Inhabited
 
 inductive Outcome
@@ -639,6 +644,53 @@ inductive Outcome
   | fail (f : Fail)
   | outOfFuel
   deriving Repr, Inhabited
+
+/-- result of an instruction that does not touch pc / call stack -/
+inductive SR
+  | ok (m : MS)
+  | halt (o : Outcome)
+  deriving Inhabited
+
+def pushV (m : MS) (v : Val) : SR :=
+  if m.stack.length < maxStack then .ok { m with stack := v :: m.stack } else .halt (.fail (.logic "stack overflow"))
+
+/-- Straight-line instructions: everything except branches, calls and frame access.
+    `none` means "not a straight-line instruction". -/
+def execSimple (cx : Ctx) (i : Instr) (m : MS) : Option SR :=
+  match i with
+  | .label _ => some (.ok m)
+  | .pragma _ _ => some (.ok m)
+  | .intcblock vs => some (.ok { m with intc := vs })
+  | .bytecblock vs => some (.ok { m with bytec := vs })
+  | .intc i => some (match m.intc[i]? with
+      | some v => pushV m (.u v)
+      | none => .halt (.fail (.illegal s!"intc {i} beyond constant block")))
+  | .bytec i => some (match m.bytec[i]? with
+      | some v => pushV m (.b v)
+      | none => .halt (.fail (.illegal s!"bytec {i} beyond constant block")))
+  | .pushInt n => some (pushV m (.u n))
+  | .pushBytes b => some (pushV m (.b b))
+  | .tmpl op n => some (.halt (.fail (.illegal s!"template placeholder {op} {n}")))
+  | .ret => some (match m.stack with
+      | v :: _ => (match v with
+        | .u _ => .halt (.done v m.world)
+        | .b _ => .halt (.fail (.typeErr "return of bytes")))
+      | [] => .halt (.fail .underflow))
+  | .err => some (.halt (.fail (.logic "err")))
+  | .load n => some (
+      if n < 256 then pushV m (getSlot m.world.scratch n) else .halt (.fail (.illegal "load slot > 255")))
+  | .store n => some (match m.stack with
+      | v :: r =>
+        if n < 256 then .ok { m with stack := r, world := { m.world with scratch := setSlot m.world.scratch n v } }
+        else .halt (.fail (.illegal "store slot > 255"))
+      | [] => .halt (.fail .underflow))
+  | .prim op imms => some (
+      match execPrim cx op imms m.world m.stack with
+      | .ok (st', w') =>
+        if st'.length ≤ maxStack then .ok { m with stack := st', world := w' }
+        else .halt (.fail (.logic "stack overflow"))
+      | .error e => .halt (.fail e))
+  | _ => none
 
 inductive StepR
   | next (s : St)
@@ -653,110 +705,84 @@ def jump (p : Program) (l : String) (s : St) : StepR :=
 /-- stack index (from bottom) → index from top -/
 def fromBottom (st : List Val) (i : Nat) : Nat := st.length - 1 - i
 
-def finish (s : St) : Outcome :=
-  match s.stack with
-  | [v] => .done v s.world
+def finish (m : MS) : Outcome :=
+  match m.stack with
+  | [v] => (match v with
+    | .u _ => .done v m.world
+    | .b _ => .fail (.typeErr "bytes left at end"))
   | [] => .fail (.logic "stack empty at end")
   | _ => .fail (.logic "stack has more than one value at end")
+
+def belowArgs (f : Frame) (i : Int) : Bool :=
+  match f.proto with
+  | some (a, _) => decide (i < 0 ∧ (-i).toNat > a)
+  | none => false
 
 def step (cx : Ctx) (p : Program) (s : St) : StepR :=
   match p[s.pc]? with
   | none =>
     -- falling off the end: legal iff pc = size (then the stack decides)
-    if s.pc = p.size then .halt (finish s) else .halt (.fail .badPc)
+    if s.pc = p.size then .halt (finish s.ms) else .halt (.fail .badPc)
   | some ln =>
     let s1 := { s with pc := s.pc + 1 }
-    let push (v : Val) : StepR :=
-      if s.stack.length < maxStack then .next { s1 with stack := v :: s.stack } else .halt (.fail (.logic "stack overflow"))
+    match execSimple cx ln.instr s.ms with
+    | some (.ok m) => .next { s1 with ms := m }
+    | some (.halt o) => .halt o
+    | none =>
     match ln.instr with
-    | .label _ => .next s1
-    | .pragma _ _ => .next s1
-    | .intcblock vs => .next { s1 with intc := vs }
-    | .bytecblock vs => .next { s1 with bytec := vs }
-    | .intc i => match s.intc[i]? with
-      | some v => push (.u v)
-      | none => .halt (.fail (.illegal s!"intc {i} beyond constant block"))
-    | .bytec i => match s.bytec[i]? with
-      | some v => push (.b v)
-      | none => .halt (.fail (.illegal s!"bytec {i} beyond constant block"))
-    | .pushInt n => push (.u n)
-    | .pushBytes b => push (.b b)
-    | .tmpl op n => .halt (.fail (.illegal s!"template placeholder {op} {n}"))
     | .b l => jump p l s1
-    | .bz l => match s.stack with
-      | .u 0 :: r => jump p l { s1 with stack := r }
-      | .u _ :: r => .next { s1 with stack := r }
+    | .bz l => match s.ms.stack with
+      | .u 0 :: r => jump p l { s1 with ms := { s.ms with stack := r } }
+      | .u _ :: r => .next { s1 with ms := { s.ms with stack := r } }
       | .b _ :: _ => .halt (.fail (.typeErr "bz on bytes"))
       | [] => .halt (.fail .underflow)
-    | .bnz l => match s.stack with
-      | .u 0 :: r => .next { s1 with stack := r }
-      | .u _ :: r => jump p l { s1 with stack := r }
+    | .bnz l => match s.ms.stack with
+      | .u 0 :: r => .next { s1 with ms := { s.ms with stack := r } }
+      | .u _ :: r => jump p l { s1 with ms := { s.ms with stack := r } }
       | .b _ :: _ => .halt (.fail (.typeErr "bnz on bytes"))
       | [] => .halt (.fail .underflow)
     | .callsub l =>
-      jump p l { s1 with calls := { retPc := s.pc + 1, height := s.stack.length } :: s.calls }
+      jump p l { s1 with calls := { retPc := s.pc + 1, height := s.ms.stack.length } :: s.calls }
     | .retsub => match s.calls with
       | [] => .halt (.fail (.frame "retsub with empty call stack"))
       | f :: cs => match f.proto with
         | none => .next { s with pc := f.retPc, calls := cs }
         | some (a, r) =>
-          if s.stack.length < f.height + r then .halt (.fail (.frame "retsub: stack below declared returns"))
+          if s.ms.stack.length < f.height + r then .halt (.fail (.frame "retsub: stack below declared returns"))
           else if f.height < a then .halt (.fail (.frame "retsub: frame below args"))
           else
-            let bottomUp := s.stack.reverse
+            let bottomUp := s.ms.stack.reverse
             let kept := bottomUp.take (f.height - a) ++ (bottomUp.drop f.height).take r
-            .next { s with pc := f.retPc, calls := cs, stack := kept.reverse }
-    | .ret => match s.stack with
-      | v :: _ => match v with
-        | .u _ => .halt (.done v s.world)
-        | .b _ => .halt (.fail (.typeErr "return of bytes"))
-      | [] => .halt (.fail .underflow)
-    | .err => .halt (.fail (.logic "err"))
+            .next { s with pc := f.retPc, calls := cs, ms := { s.ms with stack := kept.reverse } }
     | .proto a r => match s.calls with
       | [] => .halt (.fail (.frame "proto with empty call stack"))
       | f :: cs =>
         if f.proto.isSome then .halt (.fail (.frame "proto twice"))
-        else if s.stack.length < a then .halt (.fail (.frame "proto: fewer values than args"))
+        else if s.ms.stack.length < a then .halt (.fail (.frame "proto: fewer values than args"))
         else .next { s1 with calls := { f with proto := some (a, r) } :: cs }
     | .frameDig i => match s.calls with
       | [] => .halt (.fail (.frame "frame_dig with empty call stack"))
       | f :: _ =>
-        let below : Bool := match f.proto with
-          | some (a, _) => decide (i < 0 ∧ (-i).toNat > a)
-          | none => false
-        if below then .halt (.fail (.frame "frame_dig below args")) else
+        if belowArgs f i then .halt (.fail (.frame "frame_dig below args")) else
         let idx : Int := (f.height : Int) + i
         if idx < 0 then .halt (.fail (.frame "frame_dig below stack"))
-        else if idx.toNat ≥ s.stack.length then .halt (.fail (.frame "frame_dig above stack"))
-        else match s.stack[fromBottom s.stack idx.toNat]? with
-          | some v => push v
+        else if idx.toNat ≥ s.ms.stack.length then .halt (.fail (.frame "frame_dig above stack"))
+        else match s.ms.stack[fromBottom s.ms.stack idx.toNat]? with
+          | some v => (match pushV s.ms v with
+            | .ok m => .next { s1 with ms := m }
+            | .halt o => .halt o)
           | none => .halt (.fail (.frame "frame_dig above stack"))
     | .frameBury i => match s.calls with
       | [] => .halt (.fail (.frame "frame_bury with empty call stack"))
-      | f :: _ => match s.stack with
+      | f :: _ => match s.ms.stack with
         | [] => .halt (.fail .underflow)
         | v :: r =>
-          let below : Bool := match f.proto with
-            | some (a, _) => decide (i < 0 ∧ (-i).toNat > a)
-            | none => false
-          if below then .halt (.fail (.frame "frame_bury below args")) else
+          if belowArgs f i then .halt (.fail (.frame "frame_bury below args")) else
           let idx : Int := (f.height : Int) + i
           if idx < 0 then .halt (.fail (.frame "frame_bury below stack"))
           else if idx.toNat ≥ r.length then .halt (.fail (.frame "frame_bury above stack"))
-          else .next { s1 with stack := r.set (fromBottom r idx.toNat) v }
-    | .load n =>
-      if n < 256 then push (getSlot s.world.scratch n) else .halt (.fail (.illegal "load slot > 255"))
-    | .store n => match s.stack with
-      | v :: r =>
-        if n < 256 then .next { s1 with stack := r, world := { s.world with scratch := setSlot s.world.scratch n v } }
-        else .halt (.fail (.illegal "store slot > 255"))
-      | [] => .halt (.fail .underflow)
-    | .prim op imms =>
-      match execPrim cx op imms s.world s.stack with
-      | .ok (st', w') =>
-        if st'.length ≤ maxStack then .next { s1 with stack := st', world := w' }
-        else .halt (.fail (.logic "stack overflow"))
-      | .error e => .halt (.fail e)
+          else .next { s1 with ms := { s.ms with stack := r.set (fromBottom r idx.toNat) v } }
+    | _ => .halt (.fail (.illegal "unreachable: straight-line instruction"))
 
 def runFrom (cx : Ctx) (p : Program) : Nat → St → Outcome
   | 0, _ => .outOfFuel
@@ -765,6 +791,6 @@ def runFrom (cx : Ctx) (p : Program) : Nat → St → Outcome
     | .halt o => o
 
 def run (cx : Ctx) (p : Program) (fuel : Nat) (w0 : World := {}) : Outcome :=
-  runFrom cx p fuel { world := w0 }
+  runFrom cx p fuel { ms := { world := w0 } }
 
 end PyTealV.Avm
